@@ -279,9 +279,17 @@ def gen_cases(ctx) -> list[dict]:
 # ---------------------------------------------------------------------------------------
 # Coq terms
 
-def c_rulek(kind: str) -> str:
+def c_rulek_def(kind: str) -> str:
     k = KINDS[kind]
     return f"(RK {k['logic']} {cstr(k['prefix'])} {cstr(k['reverse'])} {cbool(k['catalyst'])})"
+
+
+# one Coq constant per rule kind (keeps the case terms small)
+KIND_DEFS = "\n".join(f"Definition k_{kind} : rulek := {c_rulek_def(kind)}." for kind in KINDS)
+
+
+def c_rulek(kind: str) -> str:
+    return f"k_{kind}"
 
 
 def c_line(line) -> str:
@@ -300,13 +308,85 @@ def c_out(o: dict) -> str:
 
 
 def c_case(c: dict, o: dict) -> str:
-    return cpair(cpair(c_input(c), cpair(clist(cstr(r) for r in c["old_rows"]), clist(cstr(r) for r in c["new_rows"]))),
-                 c_out(o))
+    # the rows given to the implementation are part of the term (Coq checks that they are the
+    # text of the structured lines) except in the exhaustive scope, where Coq prints them itself
+    if c["src"] == "exhaustive":
+        rows = "None"
+    else:
+        rows = "(Some " + cpair(clist(cstr(r) for r in c["old_rows"]), clist(cstr(r) for r in c["new_rows"])) + ")"
+    return cpair(cpair(c_input(c), rows), c_out(o))
 
 
 def impl_payload(c: dict) -> dict:
     k = KINDS[c["kind"]]
     return {"hw": k["hw"], "block": k["block"], "old": c["old_rows"], "new": c["new_rows"]}
+
+
+PER_FILE = 200
+
+# ---------------------------------------------------------------------------------------
+# compact case files (Spec.P_C11.check_data): all cases of a file in one string literal
+
+
+def enc_line(line) -> str:
+    flag, rs = line
+    if not rs:
+        return "n"
+    return ("+" if flag else "") + ",".join(str(a) if a == b else f"{a}-{b}" for a, b in rs)
+
+
+def enc_case(i: int, c: dict, o: dict) -> str:
+    for r in c["old_rows"] + c["new_rows"] + [r for r, _ in o.get("rows", [])]:
+        if not r or re.search(r"[|/~\n\"]", r) or not r.isascii():
+            raise core.CheckFailure(f"row cannot be encoded in a compact case file: {r!r}")
+    given = "=" if c["src"] == "exhaustive" else "/".join(c["old_rows"]) + "~" + "/".join(c["new_rows"])
+    out = "!" if "exc" in o else "/".join(r for r, _ in o["rows"])
+    return "|".join([str(i), c["kind"], ";".join(enc_line(l) for l in c["old"]),
+                     ";".join(enc_line(l) for l in c["new"]), given, out])
+
+
+def run_compact(cases: list[dict], outs: list[dict], per_file: int, tag: str = "compact") -> list[int]:
+    """indices of the cases on which agree && holds && struct_is_text is false (evaluated by Coq)"""
+    import shutil
+    from concurrent.futures import ThreadPoolExecutor
+    d = core.BUILD / "cases" / ID / tag
+    if d.exists():
+        shutil.rmtree(d)
+    d.mkdir(parents=True)
+    kinds = "Definition kinds : list (string * rulek) := " + clist(
+        cpair(cstr(k), c_rulek_def(k)) for k in KINDS) + "."
+    head = ("From Coq Require Import List String Bool Arith NArith Ascii.\nImport ListNotations.\n"
+            "Open Scope string_scope.\n" + IMPORTS + "\n" + kinds + "\n")
+    files = []
+    for k in range(0, len(cases), per_file):
+        body = "\n".join(enc_case(i, cases[i], outs[i]) for i in range(k, min(len(cases), k + per_file)))
+        f = d / f"{tag}_{k // per_file}.v"
+        f.write_text(head + 'Definition data : string := "' + body + '".\n'
+                     "Eval vm_compute in check_data kinds data.\n")
+        files.append((f, k, min(len(cases), k + per_file)))
+
+    def one(job):
+        f, lo, hi = job
+        p = core.coqc_file(f, timeout=1200)
+        if p.returncode != 0:
+            raise core.CheckFailure(f"case file {f} failed to compile:\n{(p.stdout + p.stderr)[-3000:]}")
+        parts = re.split(r"^\s*=\s", p.stdout, flags=re.M)[1:]
+        if len(parts) != 1:
+            raise core.CheckFailure(f"unexpected coqc output for {f}: {p.stdout[-2000:]}")
+        idx = [int(x) for x in re.findall(r"\d+", parts[0].split(":")[0])]
+        if any(not lo <= i < hi for i in idx):
+            raise core.CheckFailure(f"case file {f}: undecodable line or foreign index in {idx[:10]}")
+        return idx
+
+    bad: list[int] = []
+    with ThreadPoolExecutor(max_workers=core.NPROC) as ex:
+        for idx in ex.map(one, files):
+            bad.extend(idx)
+    for f, _, _ in files:
+        for ext in (".vo", ".vok", ".vos", ".glob"):
+            f.with_suffix(ext).unlink(missing_ok=True)
+        (f.parent / ("." + f.stem + ".aux")).unlink(missing_ok=True)
+    return sorted(bad)
 
 
 PREDS = {"agree": "agree", "holds": "holds", "struct_is_text": "struct_is_text"}
@@ -317,16 +397,27 @@ def diagnose(cases: list[dict], outs: list[dict], idx: list[int]) -> dict[int, s
     if not idx:
         return {}
     exprs = [f"diagnose {c_input(cases[i])} {c_out(outs[i])}" for i in idx]
-    vals = core.coq_eval(ID, IMPORTS, exprs, tag="diag")
+    vals = core.coq_eval(ID, IMPORTS + "\n" + KIND_DEFS, exprs, tag="diag")
     return {i: re.sub(r'^"|"(%string)?$', "", v.strip()) for i, v in zip(idx, vals)}
 
 
 def run(ctx):
     core.proof_stage(ctx, THEOREM_FILE)
     cases = gen_cases(ctx)
+    ctx.rng("order").shuffle(cases)      # spread the large random cases evenly over the case files
     outs = core.run_impl_sharded("c11_runner.py", [impl_payload(c) for c in cases])
-    terms = [c_case(c, o) for c, o in zip(cases, outs)]
-    res = core.run_case_files(ID, TY, IMPORTS, PREDS, terms, per_file=250)
+    # pass 1: every case, compact files, one conjunction; pass 2: the failing cases only, as
+    # structured terms, to tell which predicate failed
+    per_file = max(300, min(6000, len(cases) // (4 * core.NPROC) + 1))
+    failing = run_compact(cases, outs, per_file)
+    sub = failing[:2000]
+    res = {l: [] for l in PREDS}
+    if sub:
+        r2 = core.run_case_files(ID, TY, IMPORTS, PREDS, [c_case(cases[i], outs[i]) for i in sub],
+                                 per_file=PER_FILE, extra_defs=KIND_DEFS)
+        res = {l: [sub[j] for j in v] for l, v in r2.items()}
+        if not any(res.values()):
+            raise core.CheckFailure("compact and structured case files disagree on failing cases")
 
     seen = set()
     nontrivial = 0
@@ -407,7 +498,8 @@ def replay(ctx, doc):
     c = dict(c, old=[(bool(f), [tuple(r) for r in rs]) for f, rs in c["old"]],
              new=[(bool(f), [tuple(r) for r in rs]) for f, rs in c["new"]])
     out = core.run_impl("c11_runner.py", [impl_payload(c)])[0]
-    res = core.run_case_files(ID, TY, IMPORTS, {"holds": "holds"}, [c_case(c, out)], tag="replay")
+    res = core.run_case_files(ID, TY, IMPORTS, {"holds": "holds"}, [c_case(c, out)], tag="replay",
+                              extra_defs=KIND_DEFS)
     d = diagnose([c], [out], [0])[0]
     print("impl:", out, "holds:", not res["holds"], "diagnosis:", d)
     return 1 if res["holds"] else 0
